@@ -43,6 +43,7 @@ class Context:
         self.time_limit = time_limit
         self._globals: Dict[str, JSValue] = {}
         self._current_vm = None  # Set during eval() for timeout checking
+        self._running_vms: list = []  # Interpreters inside run(), innermost last
         self._setup_globals()
 
     def _setup_globals(self) -> None:
